@@ -46,6 +46,12 @@ ASSUMPTIONS = [
     "ArcEdgeBase.is_valid drops an arc when |(a - p) x (b - p)| <= 1e-7 in absolute terms: sector angles start at 0.1 "
     "(R = 0.1 gives 1.2e-6) and the 3-point cell keeps that product >= 1e-5 by raising the radius; the dropped class is "
     "generated in the witness cell C08/witness/arc3/shallow-small; the band in between is not explored",
+    "placement: the whole construction sits 0, 1e3, 1e5 or 2e6 radii from the origin in a general direction; tolerances "
+    "gain FAR_K eps |coordinate| R / (shortest distance between given points), FAR_K = 4000 (measured worst case of the "
+    "unchanged library 31, constant up to 1e8 R); written coordinates 2e-8 absolute",
+    "Revolve cell: expected arcs are the circles about the axis LINE (origin, direction) through each face corner, "
+    "mapped by the rigid motions / reflections of the usage steps composed with vf.refmodel; Operation.invert() does not "
+    "change geometry; tolerance 2e-8 + 1e-7 r + 1e-12 size",
     "histories (query/write, rigid move of the end vertices, query/write again): moves are translations up to 3 R per "
     "step and rotations about the arc's own axis direction through a point within 5 R of the centre, so an angle/axis "
     "specification stays valid; edge data that holds points (Origin) is moved by the same in-place calls; the "
@@ -56,6 +62,19 @@ ASSUMPTIONS = [
 
 MID_TOL = 1e-7  # x R
 LEN_RTOL = 1e-7
+EPS = 2.220446049250313e-16
+# placement far from the origin: every input coordinate carries a rounding error eps |coordinate|, amplified by
+# radius / (shortest distance between the given points).  Measured worst case of the unchanged library over placements
+# up to 1e8 R: 31 eps |c| R / chord; 4000 gives > 100x margin
+FAR_K = 4000.0
+PRINT_ABS = 2e-8  # 8 printed decimals: 5e-9 per coordinate (8.7e-9 in norm)
+
+
+def far_tol(arc, shortest=None) -> float:
+    """absolute tolerance contributed by the placement (arc: Arc or MovedArc)"""
+    chord = float(np.linalg.norm(np.asarray(arc.p2) - np.asarray(arc.p1))) if shortest is None else shortest
+    size = float(max(np.linalg.norm(arc.c), np.linalg.norm(arc.p1)))
+    return FAR_K * EPS * size * arc.R / chord
 
 
 # --------------------------------------------------------------------------------------------------
@@ -75,6 +94,10 @@ class Arc:
         self.e2 = np.cross(self.k, self.e1)
         d = np.array(case["centre_dir"], float)
         self.c = self.R * case["centre_s"] * d / np.linalg.norm(d)
+        if case.get("far"):
+            # the whole construction placed far from the origin, in a general direction (in units of the radius)
+            fd = np.array(case["far_dir"], float)
+            self.c = self.c + self.R * case["far"] * fd / np.linalg.norm(fd)
         self.a0 = case["a0"]
         self.theta = case["theta"]
 
@@ -135,6 +158,7 @@ def label(case, arc: Arc, ctx: Ctx) -> None:
     ctx.nt(away and not special)
     ctx.label("reflex" if abs(arc.theta) > math.pi else "non-reflex", "negative" if arc.theta < 0 else "positive")
     ctx.label("R<1" if arc.R < 1 else ("R<10" if arc.R < 10 else "R>=10"))
+    ctx.label("placed-at-%gR" % case.get("far", 0.0))
 
 
 def must(fn, what: str, facts):
@@ -147,15 +171,16 @@ def must(fn, what: str, facts):
 def cmp_point(got, want, arc: Arc, what: str, facts) -> None:
     got = np.asarray(got, float)
     err = float(np.linalg.norm(got - want))
-    if not err <= MID_TOL * arc.R:
+    tol = MID_TOL * arc.R + far_tol(arc)
+    if not err <= tol:
         tag = "mid-point"
-        if np.linalg.norm(got - (2 * arc.c - want)) <= MID_TOL * arc.R:
+        if np.linalg.norm(got - (2 * arc.c - want)) <= tol:
             tag = "mid-point-antipode"  # the middle of the complementary arc
         raise Violation(tag, f"{what} = {got.tolist()}, analytic middle {want.tolist()} (error {err / arc.R:.3g} R)", **facts)
 
 
-def cmp_length(got: float, want: float, what: str, facts) -> None:
-    if not abs(got - want) <= LEN_RTOL * want:
+def cmp_length(got: float, want: float, what: str, facts, extra: float = 0.0) -> None:
+    if not abs(got - want) <= LEN_RTOL * want + extra:
         raise Violation("arc-length-nan" if math.isnan(got) else "arc-length", f"{what} = {got!r}, R |theta| = {want!r}", **facts)
 
 
@@ -174,7 +199,7 @@ def requery(case, arc: Arc, edge, name: str, facts, ctx: Ctx) -> None:
     third = must(lambda: edge.third_point.position, name + ".third_point after the move", facts)
     cmp_point(third, moved.mid, moved, name + ".third_point after the move", facts)
     cmp_length(must(lambda: float(edge.length), name + ".length after the move", facts), moved.length,
-               name + ".length after the move", facts)
+               name + ".length after the move", facts, far_tol(moved))
     ctx.label("moved-and-requeried")
 
 
@@ -188,7 +213,7 @@ def check_angle(case, ctx: Ctx) -> None:
     edge = factory.create(Vertex(arc.p1, 0), Vertex(arc.p2, 1), cb.Angle(angle, axis * case["axis_scale"]))
     third = must(lambda: edge.third_point.position, "AngleEdge.third_point", facts)
     cmp_point(third, arc.mid, arc, "AngleEdge.third_point", facts)
-    cmp_length(must(lambda: float(edge.length), "AngleEdge.length", facts), arc.length, "AngleEdge.length", facts)
+    cmp_length(must(lambda: float(edge.length), "AngleEdge.length", facts), arc.length, "AngleEdge.length", facts, far_tol(arc))
     requery(case, arc, edge, "AngleEdge", facts, ctx)
     label(case, arc, ctx)
 
@@ -201,7 +226,7 @@ def check_origin(case, ctx: Ctx) -> None:
     edge = factory.create(Vertex(arc.p1, 0), Vertex(arc.p2, 1), cb.Origin(arc.c))
     third = must(lambda: edge.third_point.position, "OriginEdge.third_point", facts)
     cmp_point(third, arc.mid, arc, "OriginEdge.third_point", facts)
-    cmp_length(must(lambda: float(edge.length), "OriginEdge.length", facts), arc.length, "OriginEdge.length", facts)
+    cmp_length(must(lambda: float(edge.length), "OriginEdge.length", facts), arc.length, "OriginEdge.length", facts, far_tol(arc))
     requery(case, arc, edge, "OriginEdge", facts, ctx)
     label(case, arc, ctx)
 
@@ -213,8 +238,10 @@ def check_arc3(case, ctx: Ctx) -> None:
     tri = 4 * arc.R ** 2 * abs(math.sin(case["t"] * arc.theta / 2) * math.sin((1 - case["t"]) * arc.theta / 2) * math.sin(arc.theta / 2))
     facts = dict(facts_of(case, arc), t=case["t"], point_beyond_pi=late, triangle_cross=tri)
 
+    legs = [float(np.linalg.norm(a - b)) for a, b in ((pb, arc.p1), (pb, arc.p2), (arc.p1, arc.p2))]
+
     def judge(got: float, what: str) -> None:
-        if abs(got - arc.length) <= LEN_RTOL * arc.length:
+        if abs(got - arc.length) <= LEN_RTOL * arc.length + far_tol(arc, min(legs)):
             return
         minor = arc.R * (2 * math.pi - abs(arc.theta))
         chord = float(np.linalg.norm(arc.p2 - arc.p1))
@@ -277,7 +304,7 @@ def judge_file(mesh, arc, facts) -> None:
         raise Violation("arc-line-count", f"{len(bmd.edges)} edge entries, {len(arcs)} arcs; one arc expected", **facts)
     e = arcs[0]
     pa, pb = np.array(bmd.vertices[e.a].pos), np.array(bmd.vertices[e.b].pos)
-    tol = xe.PRINT_TOL + 1e-9 * (arc.R + float(np.linalg.norm(arc.c)))
+    tol = PRINT_ABS + MID_TOL * arc.R + far_tol(arc)
     ends_ok = (np.linalg.norm(pa - p1) <= tol and np.linalg.norm(pb - p2) <= tol) or \
               (np.linalg.norm(pa - p2) <= tol and np.linalg.norm(pb - p1) <= tol)
     if not ends_ok:
@@ -289,7 +316,7 @@ def judge_file(mesh, arc, facts) -> None:
         tag = "mid-point-antipode" if np.linalg.norm(np.array(e.payload) - (2 * arc.c - arc.mid)) <= tol else "mid-point"
         raise Violation(tag, f"written arc point {list(e.payload)}, analytic middle {np.asarray(arc.mid).tolist()}", **facts)
     cmp_length(must(lambda: float(mesh.edge_list.edges[0].length), "Edge.length", facts), arc.length,
-               "Edge.length of the written arc", facts)
+               "Edge.length of the written arc", facts, far_tol(arc))
 
 
 def check_chord(case, ctx: Ctx) -> None:
@@ -350,6 +377,8 @@ def circle_case(draw, theta, **extra):
     for k, v in extra.items():
         case[k] = draw(v)
     case["moves"] = draw(st.lists(_move, min_size=0, max_size=2))
+    case["far"] = draw(st.sampled_from([0.0, 0.0, 1e3, 1e5, 2e6]))
+    case["far_dir"] = draw(_general)
     return case
 
 
@@ -406,6 +435,155 @@ def chord_case(draw, kinds):
     return {"X": X, "Y": Y, "spec": sp}
 
 
+# --------------------------------------------------------------------------------------------------
+# angle-and-axis arcs made by cb.Revolve, then used
+
+
+def _frame_of(k):
+    j = int(np.argmin(np.abs(k)))
+    a = np.zeros(3)
+    a[j] = 1.0
+    e1 = np.cross(k, a)
+    e1 /= np.linalg.norm(e1)
+    return e1, np.cross(k, e1)
+
+
+def check_revolve(case, ctx: Ctx) -> None:
+    from vf.refmodel import apply, m_mirror, m_rotate, m_translate, rodrigues
+
+    S = 10.0 ** case["S_exp"]
+    k = np.array(case["axis"], float)
+    k /= np.linalg.norm(k)
+    e1, _ = _frame_of(k)
+    o = S * np.array(case["o"], float)
+    theta = case["theta"]
+    rz = [(case["r0"], 0.0), (case["r0"] + case["w"], 0.0), (case["r0"] + case["w"], case["h"]), (case["r0"], case["h"])]
+    rz = [(r + jr * 0.2 * min(case["w"], case["r0"]), z + jz * 0.2 * case["h"]) for (r, z), (jr, jz) in zip(rz, case["jitter"])]
+    pts = [o + S * (z * k + r * e1) for r, z in rz]
+    radii = [S * r for r, _ in rz]
+    # the face normal has to look along the sense of rotation (a right-handed block)
+    normal = np.cross(pts[1] - pts[0], pts[3] - pts[0])
+    if float(normal @ np.cross(k, e1)) * theta < 0:
+        pts, radii = pts[::-1], radii[::-1]
+    facts: Dict[str, Any] = {"theta": theta, "reflex": abs(theta) > math.pi, "usage": [s[0] for s in case["usage"]],
+                             "axis": k.tolist()}
+
+    def about_axis(p, ang):
+        return o + rodrigues(k, ang) @ (p - o)
+
+    start = pts
+    end = [about_axis(p, theta) for p in pts]
+    mid = [about_axis(p, theta / 2) for p in pts]
+
+    def vec(v):
+        return S * np.array(v, float)
+
+    M = np.eye(4)
+    try:
+        op = cb.Revolve(cb.Face(pts), theta, k * case["axis_scale"], o)
+        for st_ in case["usage"]:
+            kind = st_[0]
+            if kind == "translate":
+                op.translate(vec(st_[1]))
+                M = m_translate(vec(st_[1])) @ M
+            elif kind in ("rotate", "copy-rotate"):
+                if kind == "copy-rotate":
+                    op = op.copy()
+                op.rotate(st_[1], st_[2], vec(st_[3]))
+                M = m_rotate(st_[1], st_[2], vec(st_[3])) @ M
+            elif kind == "mirror":
+                op.mirror(st_[1], vec(st_[2]))
+                M = m_mirror(st_[1], vec(st_[2])) @ M
+            elif kind == "invert":
+                op.invert()
+            else:  # transform list
+                trs = []
+                for t in st_[1]:
+                    if t[0] == "T":
+                        trs.append(cb.Translation(vec(t[1])))
+                        M = m_translate(vec(t[1])) @ M
+                    elif t[0] == "R":
+                        trs.append(cb.Rotation(t[1], t[2], vec(t[3])))
+                        M = m_rotate(t[2], t[1], vec(t[3])) @ M
+                    else:
+                        trs.append(cb.Mirror(t[1], vec(t[2])))
+                        M = m_mirror(t[1], vec(t[2])) @ M
+                op.transform(trs)
+    except Exception as ex:
+        raise Violation("usage-raised", f"{type(ex).__name__}: {ex}", **facts) from None
+    for ax in range(3):
+        op.chop(ax, count=1)
+    mesh = cb.Mesh()
+    mesh.add(op)
+    try:
+        text, _ = lt.write_text(mesh)
+        bmd = lt.parse(text)
+    except FoamParseError as ex:
+        raise Violation("unparsable", str(ex), **facts) from None
+    except Exception as ex:
+        raise Violation("write-failed", f"{type(ex).__name__}: {ex}", **facts) from None
+    if len(bmd.edges) != 4 or any(e.kind != "arc" or len(e.payload) != 3 for e in bmd.edges):
+        raise Violation("arc-line-count", f"{[e.kind for e in bmd.edges]} written, four three-point arcs expected", **facts)
+    vpos = [np.array(v.pos) for v in bmd.vertices]
+    size = float(max(np.linalg.norm(apply(M, q)) for q in start + end)) + max(radii)
+    for i in range(4):
+        a, b, m = apply(M, start[i]), apply(M, end[i]), apply(M, mid[i])
+        tol = PRINT_ABS + MID_TOL * radii[i] + 1e-12 * size
+        mine = [e for e in bmd.edges if (
+            (np.linalg.norm(vpos[e.a] - a) <= tol and np.linalg.norm(vpos[e.b] - b) <= tol)
+            or (np.linalg.norm(vpos[e.a] - b) <= tol and np.linalg.norm(vpos[e.b] - a) <= tol))]
+        f2 = dict(facts, side_edge=i, radius=radii[i])
+        if len(mine) != 1:
+            raise Violation("arc-line-vertices", f"{len(mine)} arc entries join the ends of side edge {i}", **f2)
+        got = np.array(mine[0].payload)
+        if np.linalg.norm(got - m) > tol:
+            centre = apply(M, o + ((start[i] - o) @ k) * k)
+            tag = "mid-point-antipode" if np.linalg.norm(got - (2 * centre - m)) <= tol else "mid-point"
+            raise Violation(tag, f"side edge {i}: written arc point {got.tolist()}, middle of the revolved arc {m.tolist()}", **f2)
+        for edge in mesh.edge_list.edges:
+            ea, eb = np.asarray(edge.vertex_1.position, float), np.asarray(edge.vertex_2.position, float)
+            if (np.linalg.norm(ea - a) <= tol and np.linalg.norm(eb - b) <= tol) or \
+                    (np.linalg.norm(ea - b) <= tol and np.linalg.norm(eb - a) <= tol):
+                cmp_length(must(lambda: float(edge.length), "Edge.length", f2), radii[i] * abs(theta),  # noqa: B023
+                           f"Edge.length of side edge {i}", f2, 1e-12 * size)
+    ctx.nt(len(case["usage"]) >= 1 and float(np.max(np.abs(k))) < math.cos(math.radians(5)))
+    ctx.label("reflex" if abs(theta) > math.pi else "non-reflex", "negative" if theta < 0 else "positive")
+    ctx.label("steps=%d" % len(case["usage"]))
+    for s_ in case["usage"]:
+        ctx.label("step:" + s_[0])
+
+
+_p3 = st.tuples(st.floats(-3, 3), st.floats(-3, 3), st.floats(-3, 3)).map(list)
+_ang = st.floats(-math.pi, math.pi).map(lambda x: x if abs(x) > 0.05 else 0.7)
+_usage_step = st.one_of(
+    st.tuples(st.just("translate"), _p3).map(list),
+    st.tuples(st.just("rotate"), _ang, _general, _p3).map(list),
+    st.tuples(st.just("mirror"), _general, _p3).map(list),
+    st.just(["invert"]),
+    st.tuples(st.just("copy-rotate"), _ang, _general, _p3).map(list),
+    st.tuples(st.just("transform"), st.lists(st.one_of(
+        st.tuples(st.just("T"), _p3).map(list),
+        st.tuples(st.just("R"), _general, _ang, _p3).map(list),
+        st.tuples(st.just("M"), _general, _p3).map(list)), min_size=1, max_size=3)).map(list),
+)
+
+
+@st.composite
+def revolve_case(draw):
+    case = {"S_exp": draw(st.floats(-1.0, 1.5)), "axis": draw(_axis), "axis_scale": draw(st.sampled_from([1.0, 2.0, 0.3])),
+            "o": draw(_p3), "theta": draw(FULL), "r0": draw(st.floats(0.2, 3.0)), "w": draw(st.floats(0.2, 2.0)),
+            "h": draw(st.floats(0.2, 2.0)),
+            "jitter": [[draw(st.floats(-1, 1)), draw(st.floats(-1, 1))] for _ in range(4)]}
+    n = [0, 1, 1, 1, 2, 2, 3, 3][draw(st.integers(0, 7))]
+    case["usage"] = [draw(_usage_step) for _ in range(n)]
+    # keep |(a - p) x (b - p)| of the smallest side arc >= 1e-5 (the library's absolute collinearity tolerance is 1e-7,
+    # known finding C08-N2) by raising the size
+    th = abs(case["theta"])
+    tri = 4 * math.sin(th / 4) ** 2 * abs(math.sin(th / 2)) * (0.8 * case["r0"]) ** 2
+    case["S_exp"] = max(case["S_exp"], 0.5 * math.log10(1e-5 / tri) + 1e-3)
+    return case
+
+
 EXACT_KINDS = ("arc", "arc-late", "origin", "angle", "spline", "polyLine", "project", "line", "arc-collinear")
 
 CELLS = [
@@ -433,6 +611,10 @@ CELLS = [
          "middle (minor arcs: a block edge)"),
     Cell("C08/file/arc-line-reflex", circle_case(_theta(math.pi + 0.05, 2 * math.pi - 0.05), spec=st.just("angle")), check_file,
          150, 5000, "the same for reflex angle/axis arcs"),
+    Cell("C08/file/revolve", revolve_case(), check_revolve, 300, 10000,
+         "cb.Revolve of a quadrilateral about a general axis line (either sign, also reflex), then 0-3 usage steps "
+         "(translate, rotate about a general axis, mirror, invert, copy-then-rotate, transform list): the four written arc "
+         "points are the middles of the revolved arcs mapped by the same motions (vf.refmodel), Edge.length = r |theta|"),
     Cell("C08/chord/exact-kinds", chord_case(EXACT_KINDS), check_chord, 2000, 80000,
          "Edge.length >= |v2 - v1| (1 - 1e-12) for line, arc (also reflex, point anywhere), origin, angle, spline, "
          "polyLine, project, collinear arc"),
